@@ -15,6 +15,7 @@ DESIGN.md section 2.1; every instance is recorded in `Result.drops`.
       @at before|after "TOKENS" ... @end proof text spliced before/after first occurrence of TOKENS in the body
       @closure K |args| -> (r: T) ... @end   re-bracket K-th closure with a contract (A2)
       @nested NAME ret=r ... @end            contract for a fn item nested in the body (A1/A5 applied to it)
+      @opaque "first" .. "last" => [let P =] opaque__f(..)[?];   D6: a run of statements becomes one opaque step
   @struct FILE :: NAME [fields=a,b,c] [attr=TEXT]
   @enum FILE :: NAME [attr=TEXT]
   @const [FILE ::] NAME [cfg=TEXT]
@@ -260,6 +261,7 @@ class FnSpec:
         self.ats = []
         self.closures = {}
         self.nested = {}
+        self.opaques = []
         self.desugars = []
         self.etas = []
         self.default_from = None
@@ -400,6 +402,13 @@ def parse_vspec(path):
                     k, _, sig = r2.partition(' ')
                     text, i = block(i + 1)
                     fs.closures[int(k)] = (sig.strip(), text)
+                elif h2 == '@opaque':
+                    # @opaque "first tokens" .. "last tokens" => replacement;   (rule D6)
+                    m = re.match(r'"((?:[^"\\]|\\.)*)"\s*\.\.\s*"((?:[^"\\]|\\.)*)"\s*=>\s*(.*)$', r2)
+                    if not m:
+                        raise Undecided('%s:%d: bad @opaque' % (path, i + 1))
+                    fs.opaques.append((m.group(1).replace('\\"', '"'), m.group(2).replace('\\"', '"'), m.group(3).strip()))
+                    i += 1
                 elif h2 == '@nested':
                     # @nested NAME ret=r ... @end : contract for a fn item nested in the body (A1 + A5 on the nested item)
                     nm, _, rest = r2.partition(' ')
@@ -815,6 +824,63 @@ class Extractor:
             drops.append('A10 eta-expansion of constructor value `%s` (%d site(s)) in %s' % (ctor, len(hits), where))
         return body
 
+    OPAQUE_RE = re.compile(r'^(let\s+(?P<pat>[^=]+?)\s*=\s*)?opaque__\w+\([^;]*\)(?P<q>\?)?;$')
+
+    def _opaque(self, body, fs, where, drops):
+        """D6: a run of whole statements that Verus cannot take is replaced by ONE call of an opaque step declared in the
+        unit's trusted preamble (its contract - what the dropped statements leave unchanged - is an assumption).  The
+        replacement is restricted: `[let PAT =] opaque__name(args)[?];`, fallible iff the dropped text contains `?`, and a
+        `let` pattern must be one the dropped text binds.  Dropped text with return/break/continue is refused."""
+        for first, last, repl in fs.opaques:
+            toks = lex(body)
+            ft = [t.text for t in lex(first)]
+            lt = [t.text for t in lex(last)]
+            a = next((k for k in range(len(toks) - len(ft) + 1) if [t.text for t in toks[k:k + len(ft)]] == ft), None)
+            if a is None:
+                raise Undecided('lost anchor: `%s` in %s' % (first, where))
+            b = next((k for k in range(a, len(toks) - len(lt) + 1) if [t.text for t in toks[k:k + len(lt)]] == lt), None)
+            if b is None:
+                raise Undecided('lost anchor: `%s` in %s' % (last, where))
+            # the statement boundary before `a`: previous token must end a statement or open the body
+            if toks[a - 1].text not in (';', '{', '}'):
+                raise Undecided('@opaque `%s` in %s does not start at a statement boundary' % (first, where))
+            depth = 0
+            e = None
+            k = a
+            while k < len(toks):
+                tx = toks[k].text
+                if tx in ('(', '[', '{'):
+                    depth += 1
+                elif tx in (')', ']', '}'):
+                    depth -= 1
+                    if depth < 0:
+                        break
+                elif tx == ';' and depth == 0 and k >= b + len(lt) - 1:
+                    e = k
+                    break
+                k += 1
+            if e is None:
+                raise Undecided('@opaque `%s` .. `%s` in %s: no statement end found' % (first, last, where))
+            rng = toks[a:e + 1]
+            texts = [t.text for t in rng]
+            if any(t.kind == 'ident' and t.text in ('return', 'break', 'continue') for t in rng):
+                raise Undecided('@opaque range in %s contains return/break/continue' % where)
+            m = self.OPAQUE_RE.match(repl)
+            if not m:
+                raise Undecided('@opaque replacement in %s is not of the form `[let PAT =] opaque__f(..)[?];`: %s' % (where, repl))
+            if ('?' in texts) != bool(m.group('q')):
+                raise Undecided('@opaque `%s` in %s: the dropped statements %s `?` but the replacement %s'
+                                % (first, where, 'contain' if '?' in texts else 'do not contain', 'does not' if '?' in texts else 'does'))
+            if m.group('pat'):
+                pt = ['let'] + [t.text for t in lex(m.group('pat'))] + ['=']
+                if not any(texts[k:k + len(pt)] == pt for k in range(len(texts))):
+                    raise Undecided('@opaque `%s` in %s: the dropped statements do not bind `%s`' % (first, where, m.group('pat')))
+            old = body[toks[a].start:toks[e].end]
+            drops.append('D6 %s: %d statement token(s) replaced by `%s` (assumed contract in the preamble): %s'
+                         % (where, len(rng), repl, norm(old)[:600]))
+            body = body[:toks[a].start] + repl + '\n' * old.count('\n') + body[toks[e].end:]
+        return body
+
     def _splice_body(self, body, fs, where):
         """Insert loop invariants / @at proof text / closure contracts. Returns list of (text, is_spec)."""
         toks = lex(body)
@@ -949,6 +1015,7 @@ class Extractor:
             res.drops.append('D1 attr on %s: %s' % (qual, a))
         where = '%s (%s)' % (qual, sf.rel)
         if not fs.external_body:
+            body = self._opaque(body, fs, where, res.drops)
             body = self._clean_body(body, res.drops, where)
             body = self._desugar(body, fs, where, res.drops)
             body = self._eta(body, fs, where, res.drops)
@@ -1064,7 +1131,9 @@ class Extractor:
             if d.get('phantom'):
                 # A8: lifetimes left unused by the projection are kept alive by a ghost PhantomData field
                 lts = d['phantom'].split(',')
-                text += '    pub _verif_phantom: core::marker::PhantomData<(%s)>,\n' % ', '.join('&%s ()' % l for l in lts)
+                # `'x:'y` keeps an outlives relation that a dropped field implied (e.g. `&'y dyn Tr<'x>`): `&'y &'x ()`
+                text += '    pub _verif_phantom: core::marker::PhantomData<(%s)>,\n' % ', '.join(
+                    ('&%s &%s ()' % (l.split(':')[1], l.split(':')[0])) if ':' in l else ('&%s ()' % l) for l in lts)
                 res.drops.append('A8 struct %s: PhantomData field for lifetimes %s' % (d['name'], lts))
             text += '}'
         else:
